@@ -384,6 +384,18 @@ Section ConcFacts.
     rewrite <- M1, <- M2.
     eapply (run_radius_antitone vlen vhead8 dec _ _ y1 y2 G S1 R1 (puts_valid _ _ Fl) (puts_are_puts _) RU2).
   Qed.
+  (* C17/C05 "the persisted usage figure is not below the bytes actually present", over concurrent histories of the
+     locked machine: at every point where nobody is inside Put the record on disk is the counter and covers what is held *)
+  Theorem conc_record_covers_bytes Q (y0 : sys (V:=V)) work sched :
+    SInv vlen Q y0 -> Forall (fun p => valid_id (node (mem y0)) (fst p)) (concat work) ->
+    let c := exec true false (start (mem y0) work) sched in
+    lock c = None ->
+    held vlen (sh c) <= cnt (sh c) /\
+    (rec (sdb (sh c)) = None /\ cnt (sh c) = 0 \/ rec (sdb (sh c)) = Some (SizeRec (cnt (sh c)))).
+  Proof.
+    intros S F c LF. destruct (locked_lockfree_run Q y0 work sched S F LF) as (y' & _ & M & (I & _) & _). fold c in M.
+    rewrite <- M. eapply inv_meaning. exact I.
+  Qed.
 End ConcFacts.
 
 (* ================================================================ the unlocked code: two prune passes over one snapshot *)
@@ -450,4 +462,24 @@ Lemma check_outside_lock_radius_grows :
   let c1 := exec nv_len be_to_N true true (start chk_s0 chk_work3) (firstn 13 chk_sched3) in
   let c2 := exec nv_len be_to_N true true (start chk_s0 chk_work3) chk_sched3 in
   lock c1 = None /\ rad (sh c1) = 3 /\ quiescent c2 = true /\ rad (sh c2) = 200.
+Proof. vm_compute. repeat split; reflexivity. Qed.
+
+(* ================================================================ prune outside the writers' lock (seeded variant):
+   a put lands between the prune's counter load and its counter store *)
+Definition pdp_s0 : st (V:=N) :=
+  match run nv_len nv_head le_to_N (init 1 K_contentDeletionPPM zero32)
+          [OPut (key32 x00 x10) 300000; OPut (key32 x00 x20) 300000; OPut (key32 x00 x30) 300000] with
+  | Ok y => mem y
+  | _ => mem (init 1 K_contentDeletionPPM zero32)
+  end.
+Definition pdp_work : list (list (bytes * N)) := [[(key32 x00 x40, 150000); (key32 x00 x02, 1000)]; [(key32 x00 x01, 1000)]].
+(* A: start, check, add, commit, scan, load.  B: start, check, add, commit.  A: store (overwrites B's add), return.
+   B: its own pruning pass (scan, load, store), return.  A: one more put.  The counter and every later size record
+   miss B's item *)
+Definition pdp_sched : list nat := [0; 0; 0; 0; 0; 0; 1; 1; 1; 1; 0; 0; 1; 1; 1; 1; 0; 0; 0; 0; 0]%nat.
+Lemma put_during_prune_refuted :
+  let c := exec nv_len le_to_N false false (start pdp_s0 pdp_work) pdp_sched in
+  quiescent c = true /\
+  match rec (sdb (sh c)) with Some (SizeRec n) => n <? held nv_len (sh c) = true | _ => False end /\
+  cnt (sh c) <? held nv_len (sh c) = true.
 Proof. vm_compute. repeat split; reflexivity. Qed.
